@@ -199,7 +199,7 @@ PROPS["C19"] = dict(
                 "with vertices on random polylines, hydraulics before/after a split on Net1/Net3, skeletonize on example networks x thresholds x options "
                 "(sources/pumps/valves/control elements kept, total demand per time conserved, skeleton map a partition).",
     trusted_base=["WaterNetworkModel.add_junction/add_pipe/get_node/get_link (C14)", "copy.deepcopy"],
-    not_decided=["hydraulic equivalence of a split for every network (bounded by simulation only)", "skeletonize beyond the listed networks; networks with quality sources are outside the bounded scope (pre-survey finding 20)"],
+    not_decided=["hydraulic equivalence of a split for every network (bounded by simulation only)", "skeletonize beyond the listed networks (bounded stand-in only; pre-survey finding 20 - a trimmed junction carrying a quality source made skeletonize raise - was repaired by fix 98e24235 and Net2 is part of the stand-in)"],
     assumptions=[],
     rule="bounded: random polylines / listed networks; distinct = distinct parameter tuples",
 )
